@@ -1,6 +1,9 @@
 #include "simdisk.h"
 #include "prng.h"
 #include "simsched.h"
+#ifdef SIM_VALGRIND
+#include <valgrind/memcheck.h>
+#endif
 
 #include <cerrno>
 #include <cstdio>
@@ -41,6 +44,8 @@ std::map<int, OpenFile> g_open;
 DiskTotals g_tot;
 std::string g_real_root;
 thread_local OpCtx t_op;
+thread_local bool t_undef = false;
+thread_local uint64_t t_undef_off = 0;
 
 bool is_sim_path(const char *p) { return p && std::strncmp(p, "/sim/", 5) == 0; }
 
@@ -142,6 +147,12 @@ OpStats disk_end_op(std::vector<WriteRec> *trace) {
     g_tot.f_short_read += st.f_short_read;
     return st;
 }
+bool disk_take_undefined_write(uint64_t *off) {
+    bool u = t_undef;
+    if (u && off) *off = t_undef_off;
+    t_undef = false;
+    return u;
+}
 DiskTotals disk_totals() {
     HarnessScope hs;
     std::lock_guard<std::mutex> lk(g_mu);
@@ -205,6 +216,16 @@ ssize_t sim_write(int fd, const struct iovec *iov, int cnt) {
         }
     }
     if (of.append) of.pos = of.f->data.size();
+#ifdef SIM_VALGRIND
+    {   // definedness of every byte handed to the OS (memcheck tracks it through the filebuf's copies)
+        uint64_t before = 0;
+        for (int i = 0; i < cnt && !t_undef; ++i) {
+            uintptr_t bad = VALGRIND_CHECK_MEM_IS_DEFINED(iov[i].iov_base, iov[i].iov_len);
+            if (bad) { t_undef = true; t_undef_off = of.pos + before + (bad - reinterpret_cast<uintptr_t>(iov[i].iov_base)); }
+            before += iov[i].iov_len;
+        }
+    }
+#endif
     WriteRec rec;
     rec.off = of.pos;
     rec.bytes.reserve(allowed);
